@@ -5,7 +5,7 @@ import pyspec
 import ssuite
 
 PROPS_FILE = "props/C12.v"
-MODEL_FILES = ["theories/Substitute.v", "theories/CaseSubst.v"]
+MODEL_FILES = ["theories/Substitute.v", "theories/CaseSubst.v", "theories/HSat.v", "theories/CaseHSat.v"]
 EXTRA_TRUSTED = [
     "'usable' is checked on the real generator/validator: if every sub-schema of S generates accepted values under "
     "the min/max/random tapes (S hereditarily generable) then so must S % v",
@@ -63,6 +63,24 @@ def run(ctx):
     dist = {}
     samples = []
     usable_checked = idem_checked = 0
+    # the hypothesis of subst_result_can_be_generated_from (wf and hsatb of the ORIGINAL schema), decided inside
+    # Coq for every case with a plain value: where it holds, S % v must generate accepted values - no heuristic
+    # about S is consulted
+    import absn
+    import gsuite
+    hs_cases, hs_terms = [], []
+    for c in cases:
+        if pyspec.is_plain(c.value):
+            try:
+                hs_terms.append(f"({gsuite.world_term()}, {absn.cschema(c.schema, absn.KeyTable())}, true)")
+                hs_cases.append(c)
+            except absn.Unmodelled:
+                pass
+    not_hs = set(common.eval_cases(ctx.workdir, "c12hsat", hs_terms, "hsatcase", "hsatcase_ok",
+                                   extra_requires="Require Import D42.PyRandom D42.RegexGen D42.Generate D42.SatB D42.HSat D42.CaseHSat."))
+    hsat_holds = {id(c) for j, c in enumerate(hs_cases) if j not in not_hs}
+    dist["hypothesis_hsat_holds"] = len(hsat_holds)
+    dist["hypothesis_hsat_fails"] = len(not_hs)
     for c in cases:
         ssuite.observe(c)
         dist["outcome:" + c.outcome] = dist.get("outcome:" + c.outcome, 0) + 1
@@ -99,7 +117,7 @@ def run(ctx):
                     rp.update(observed=f"validate(S % v, fake(S % v)) raised {type(e).__name__}: {e}",
                               expected="a usable schema")
                     ctx.violation("substitution returned a schema on which validation raises", rp)
-        if ssuite.hereditarily_generable(ctx, c.schema):
+        if id(c) in hsat_holds or ssuite.hereditarily_generable(ctx, c.schema):
             usable_checked += 1
             for good, g, used in ssuite.gen_values(ctx, c.result):
                 if not good:
